@@ -118,7 +118,7 @@ Ltac sset := unfold set_threads, set_conns, set_fails, set_now, set_unhealthy, s
 (* open a step of thread t: only the program counter the label applies to survives *)
 Ltac open_thread H s t Hn :=
   unfold step in H;
-  destruct (nth_error (threads s) t) as [[|?obs|[?h|]|?h ?n|?h|?h|?code]|] eqn:Hn; try discriminate H.
+  destruct (nth_error (threads s) t) as [[|?obs ?cur|[?h|]|?h ?n|?h|?h|?code]|] eqn:Hn; try discriminate H.
 
 Lemma full_false_lt c s h : full c s h = false -> 0 < c_max_conns c -> conns s h < c_max_conns c.
 Proof.
@@ -138,6 +138,16 @@ Proof.
   - intros p0 H0. apply in_set_nth in H0 as [->|H0]; [exact Hok | exact (Ia _ H0)].
 Qed.
 
+Lemma read_next_selecting c s h obs cur p :
+  read_next c s h obs cur = Some p -> exists obs' cur', p = Selecting obs' cur'.
+Proof.
+  unfold read_next. intros H. destruct cur as [[h' st]|].
+  - destruct (Nat.eqb h h'); [|discriminate]. destruct st; injection H as <-.
+    + eauto.
+    + destruct (c_max_fails c <=? fails s h); eauto.
+  - injection H as <-. destruct (unhealthy s h); eauto.
+Qed.
+
 Lemma step_inv c pol s l s' : Inv c s -> step c pol s l = Some s' -> Inv c s'.
 Proof.
   intros I H. destruct l.
@@ -147,9 +157,12 @@ Proof.
     + intros p H0. apply in_app_or in H0 as [H0|[<-|[]]]; [exact (Ia _ H0) | exact Logic.I].
   - (* select starts *) open_thread H s t Hn. injection H as <-.
     apply (inv_thread_move _ _ _ _ _ I Hn); simpl; auto.
-  - (* one availability read *) open_thread H s t Hn. injection H as <-.
+  - (* one load of an availability read *) open_thread H s t Hn.
+    destruct (read_next c s h obs cur) as [p|] eqn:Er; [|discriminate]. injection H as <-.
+    destruct (read_next_selecting _ _ _ _ _ _ Er) as (obs' & cur' & ->).
     apply (inv_thread_move _ _ _ _ _ I Hn); simpl; auto.
-  - (* select returns *) open_thread H s t Hn. destruct (pol obs ho); [|discriminate]. injection H as <-.
+  - (* select returns *) open_thread H s t Hn. destruct cur; [discriminate|].
+    destruct (pol obs ho); [|discriminate]. injection H as <-.
     pose proof (inv_thread_move _ _ _ _ (Selected ho) I Hn) as I'.
     destruct I' as [Ic If Id Ip Io Ia Icap]; simpl; auto. constructor; sset; auto.
   - (* acquireConn: load *) open_thread H s t Hn. injection H as <-.
@@ -419,8 +432,9 @@ Proof.
   intros H (f & Hf & Hh & Ha). destruct l; unfold step in H.
   - injection H as <-. exists f; auto.
   - destruct (nth_error (threads s) t) as [[| | | | | |]|]; try discriminate. injection H as <-. exists f; auto.
-  - destruct (nth_error (threads s) t) as [[| | | | | |]|]; try discriminate. injection H as <-. exists f; auto.
-  - destruct (nth_error (threads s) t) as [[|obs| | | | |]|]; try discriminate.
+  - destruct (nth_error (threads s) t) as [[|obs cur| | | | |]|]; try discriminate.
+    match type of H with match ?rn with _ => _ end = _ => destruct rn; [|discriminate] end. injection H as <-. exists f; auto.
+  - destruct (nth_error (threads s) t) as [[|obs [?|]| | | | |]|]; try discriminate.
     destruct (pol obs ho); [|discriminate]. injection H as <-. exists f; auto.
   - destruct (nth_error (threads s) t) as [[| |[x|]| | | |]|]; try discriminate. injection H as <-. exists f; auto.
   - destruct (nth_error (threads s) t) as [[| | |x n| | |]|]; try discriminate.
@@ -634,107 +648,153 @@ Proof.
 Qed.
 
 (* ---------- Select is a sequence of reads: what its answer guarantees ---------- *)
-Definition sel_obs (s : state) (t : nat) : list (nat * bool) :=
-  match nth_error (threads s) t with Some (Selecting obs) => obs | _ => [] end.
+(* evidence a request inside Select holds about host h: level 1 = Unhealthy was loaded 0, level 2 = and Fails
+   below max_fails, level 3 (and every other k) = and Conns below the cap, i.e. Available() answered true *)
+Definition evid (k : nat) (h : nat) (p : option pc) : Prop :=
+  match p with
+  | Some (Selecting obs cur) =>
+      In (h, true) obs \/
+      match cur with
+      | Some (h', st) => h' = h /\ (k = 1%nat \/ (k = 2%nat /\ st = true))
+      | None => False
+      end
+  | _ => False
+  end.
+(* the fact about the state that a load of that level established *)
+Definition fact (c : config) (k : nat) (s : state) (h : nat) : Prop :=
+  match k with
+  | 1%nat => unhealthy s h = false
+  | 2%nat => fails s h < c_max_fails c
+  | _ => full c s h = false
+  end.
 
-Lemma sel_obs_set s t t0 q p :
+Lemma pc_at_set s t t0 q p :
   nth_error (threads s) t0 = Some q ->
-  sel_obs (set_threads s (set_nth (threads s) t0 p)) t =
-  if Nat.eqb t t0 then match p with Selecting obs => obs | _ => [] end else sel_obs s t.
+  nth_error (threads (set_threads s (set_nth (threads s) t0 p))) t = if Nat.eqb t t0 then Some p else nth_error (threads s) t.
 Proof.
-  intros Hn. unfold sel_obs. simpl. destruct (Nat.eqb t t0) eqn:E.
-  - apply Nat.eqb_eq in E. subst t0. rewrite (nth_error_set_nth _ _ _ _ Hn). reflexivity.
-  - apply Nat.eqb_neq in E. rewrite (nth_error_set_nth_other _ _ _ _ E). reflexivity.
+  intros Hn. simpl. destruct (Nat.eqb t t0) eqn:E.
+  - apply Nat.eqb_eq in E. subst t0. exact (nth_error_set_nth _ _ _ _ Hn).
+  - apply Nat.eqb_neq in E. exact (nth_error_set_nth_other _ _ _ _ E).
 Qed.
 
-Lemma step_sel_obs c pol s l s' t h :
+Lemma read_next_evid c s h0 obs cur p k h :
+  read_next c s h0 obs cur = Some p -> evid k h (Some p) ->
+  evid k h (Some (Selecting obs cur)) \/ fact c k s h.
+Proof.
+  unfold read_next. intros H Ev. destruct cur as [[h' st]|].
+  - destruct (Nat.eqb h0 h') eqn:E0; [|discriminate]. apply Nat.eqb_eq in E0. subst h'. destruct st.
+    + (* the Conns load *) injection H as <-. simpl in Ev. destruct Ev as [[E|Hi]|[]].
+      * injection E as -> Hf. apply negb_true_iff in Hf.
+        destruct k as [|[|[|k]]]; simpl; [right; exact Hf | left; right; auto | left; right; auto | right; exact Hf].
+      * left. left. exact Hi.
+    + (* the Fails load *) destruct (c_max_fails c <=? fails s h0) eqn:F; injection H as <-; simpl in Ev.
+      * destruct Ev as [[E|Hi]|[]]; [discriminate E | left; left; exact Hi].
+      * apply Z.leb_gt in F. destruct Ev as [Hi|[-> [->|[-> _]]]]; [left; left; exact Hi | left; right; auto | right; exact F].
+  - (* the Unhealthy load *) destruct (unhealthy s h0) eqn:U; injection H as <-; simpl in Ev.
+    + destruct Ev as [[E|Hi]|[]]; [discriminate E | left; left; exact Hi].
+    + destruct Ev as [Hi|[-> [->|[_ E]]]]; [left; left; exact Hi | right; exact U | discriminate E].
+Qed.
+
+Lemma step_evid c pol s l s' t k h :
   step c pol s l = Some s' -> is_selstart t l = false ->
-  In (h, true) (sel_obs s' t) -> In (h, true) (sel_obs s t) \/ available c s h = true.
+  evid k h (nth_error (threads s') t) -> evid k h (nth_error (threads s) t) \/ fact c k s h.
 Proof.
-  intros H Hl Hin.
+  intros H Hl Ev.
+  (* a thread step that leaves thread t0 at a program counter outside Select *)
   assert (K : forall t0 q p, nth_error (threads s) t0 = Some q ->
-              In (h, true) (sel_obs (set_threads s (set_nth (threads s) t0 p)) t) ->
-              (forall obs, p = Selecting obs -> t = t0 ->
-                 In (h, true) obs -> In (h, true) (sel_obs s t) \/ available c s h = true) ->
-              In (h, true) (sel_obs s t) \/ available c s h = true).
-  { intros t0 q p Hn Hi Hp. rewrite (sel_obs_set _ _ _ _ _ Hn) in Hi.
-    destruct (Nat.eqb t t0) eqn:E; [|left; exact Hi].
-    apply Nat.eqb_eq in E. destruct p; try contradiction. exact (Hp _ eq_refl E Hi). }
+              evid k h (nth_error (threads (set_threads s (set_nth (threads s) t0 p))) t) ->
+              (forall o cu, p <> Selecting o cu) -> evid k h (nth_error (threads s) t) \/ fact c k s h).
+  { intros t0 q p Hn Hi Hp. rewrite (pc_at_set _ _ _ _ _ Hn) in Hi.
+    destruct (Nat.eqb t t0); [|left; exact Hi].
+    destruct p; simpl in Hi; try contradiction. exfalso. exact (Hp _ _ eq_refl). }
   destruct l.
-  - (* spawn *) unfold step in H. injection H as <-. left. unfold sel_obs in *. simpl in Hin.
+  - (* spawn *) unfold step in H. injection H as <-. left. simpl in Ev.
     destruct (nth_error (threads s) t) as [p|] eqn:E.
-    + rewrite nth_error_app1 in Hin by (apply nth_error_Some; congruence). rewrite E in Hin. exact Hin.
-    + apply nth_error_None in E. rewrite nth_error_app2 in Hin by exact E.
-      destruct (t - length (threads s))%nat as [|[|j]]; simpl in Hin; contradiction.
-  - open_thread H s t0 Hn. injection H as <-. simpl in Hl. apply (K _ _ _ Hn Hin).
-    intros obs _ E. subst t0. rewrite Nat.eqb_refl in Hl. discriminate.
-  - open_thread H s t0 Hn. injection H as <-. apply (K _ _ _ Hn Hin).
-    intros obs0 E Et. injection E as <-. subst t0. intros [E|Hi].
-    + injection E as -> Ha. right. exact Ha.
-    + left. unfold sel_obs. rewrite Hn. exact Hi.
-  - open_thread H s t0 Hn. destruct (pol obs ho); [|discriminate]. injection H as <-.
-    change (sel_obs (set_robin (set_threads s (set_nth (threads s) t0 (Selected ho))) r) t)
-      with (sel_obs (set_threads s (set_nth (threads s) t0 (Selected ho))) t) in Hin.
-    apply (K _ _ _ Hn Hin). intros ? E; discriminate E.
-  - open_thread H s t0 Hn. injection H as <-. apply (K _ _ _ Hn Hin).
-    intros ? E. destruct (full c s h0); discriminate E.
+    + rewrite nth_error_app1 in Ev by (apply nth_error_Some; congruence). rewrite E in Ev. exact Ev.
+    + apply nth_error_None in E. rewrite nth_error_app2 in Ev by exact E.
+      destruct (t - length (threads s))%nat as [|[|j]]; simpl in Ev; contradiction.
+  - open_thread H s t0 Hn. injection H as <-. simpl in Hl. rewrite (pc_at_set _ _ _ _ _ Hn) in Ev.
+    rewrite Hl in Ev. left. exact Ev.
+  - open_thread H s t0 Hn. destruct (read_next c s h0 obs cur) as [p|] eqn:Er; [|discriminate]. injection H as <-.
+    rewrite (pc_at_set _ _ _ _ _ Hn) in Ev. destruct (Nat.eqb t t0) eqn:E; [|left; exact Ev].
+    apply Nat.eqb_eq in E. subst t0. rewrite Hn. exact (read_next_evid _ _ _ _ _ _ _ _ Er Ev).
+  - open_thread H s t0 Hn. destruct cur; [discriminate|]. destruct (pol obs ho); [|discriminate]. injection H as <-.
+    change (threads (set_robin (set_threads s (set_nth (threads s) t0 (Selected ho))) r))
+      with (threads (set_threads s (set_nth (threads s) t0 (Selected ho)))) in Ev.
+    apply (K _ _ _ Hn Ev). intros ? ? E; discriminate E.
+  - open_thread H s t0 Hn. injection H as <-. apply (K _ _ _ Hn Ev).
+    intros ? ? E. destruct (full c s h0); discriminate E.
   - open_thread H s t0 Hn. destruct (conns s h0 =? n); injection H as <-.
-    + change (sel_obs (set_conns (set_threads s (set_nth (threads s) t0 (Forwarding h0))) (bump (conns s) h0 1)) t)
-        with (sel_obs (set_threads s (set_nth (threads s) t0 (Forwarding h0))) t) in Hin.
-      apply (K _ _ _ Hn Hin). intros ? E; discriminate E.
-    + apply (K _ _ _ Hn Hin). intros ? E; discriminate E.
-  - open_thread H s t0 Hn. injection H as <-. apply (K _ _ _ Hn Hin).
-    intros ? E. destruct again; discriminate E.
+    + change (threads (set_conns (set_threads s (set_nth (threads s) t0 (Forwarding h0))) (bump (conns s) h0 1)))
+        with (threads (set_threads s (set_nth (threads s) t0 (Forwarding h0)))) in Ev.
+      apply (K _ _ _ Hn Ev). intros ? ? E; discriminate E.
+    + apply (K _ _ _ Hn Ev). intros ? ? E; discriminate E.
+  - open_thread H s t0 Hn. injection H as <-. apply (K _ _ _ Hn Ev).
+    intros ? ? E. destruct again; discriminate E.
   - open_thread H s t0 Hn. injection H as <-.
-    change (sel_obs (set_conns (set_threads s (set_nth (threads s) t0 (after_forward o h0))) (bump (conns s) h0 (-1))) t)
-      with (sel_obs (set_threads s (set_nth (threads s) t0 (after_forward o h0))) t) in Hin.
-    apply (K _ _ _ Hn Hin). intros ? E. destruct o; discriminate E.
+    change (threads (set_conns (set_threads s (set_nth (threads s) t0 (after_forward o h0))) (bump (conns s) h0 (-1))))
+      with (threads (set_threads s (set_nth (threads s) t0 (after_forward o h0)))) in Ev.
+    apply (K _ _ _ Hn Ev). intros ? ? E. destruct o; discriminate E.
   - open_thread H s t0 Hn. destruct (0 <? c_fail_timeout c); injection H as <-.
-    + change (sel_obs (set_fails (set_threads s (set_nth (threads s) t0 (retry_pc again))) (bump (fails s) h0 1)
-                 (flog s ++ [{| f_host := h0; f_at := now s; f_fired := None |}])) t)
-        with (sel_obs (set_threads s (set_nth (threads s) t0 (retry_pc again))) t) in Hin.
-      apply (K _ _ _ Hn Hin). intros ? E. destruct again; discriminate E.
-    + apply (K _ _ _ Hn Hin). intros ? E. destruct again; discriminate E.
-  - unfold step in H. destruct (nth_error (flog s) k) as [f|]; [|discriminate].
+    + change (threads (set_fails (set_threads s (set_nth (threads s) t0 (retry_pc again))) (bump (fails s) h0 1)
+                 (flog s ++ [{| f_host := h0; f_at := now s; f_fired := None |}])))
+        with (threads (set_threads s (set_nth (threads s) t0 (retry_pc again)))) in Ev.
+      apply (K _ _ _ Hn Ev). intros ? ? E. destruct again; discriminate E.
+    + apply (K _ _ _ Hn Ev). intros ? ? E. destruct again; discriminate E.
+  - unfold step in H. destruct (nth_error (flog s) k0) as [f|]; [|discriminate].
     destruct (asleep f && (f_at f + c_fail_timeout c <=? now s)); [|discriminate]. injection H as <-.
-    left. exact Hin.
-  - unfold step in H. destruct (0 <=? d); [|discriminate]. injection H as <-. left. exact Hin.
-  - unfold step in H. injection H as <-. left. exact Hin.
+    left. exact Ev.
+  - unfold step in H. destruct (0 <=? d); [|discriminate]. injection H as <-. left. exact Ev.
+  - unfold step in H. injection H as <-. left. exact Ev.
 Qed.
 
-Lemma run_sel_obs c pol t h : forall ls s s',
+Lemma run_evid c pol t k h : forall ls s s',
   run c pol s ls = Some s' -> existsb (is_selstart t) ls = false ->
-  In (h, true) (sel_obs s' t) ->
-  In (h, true) (sel_obs s t) \/
-  exists l1 l2 si, ls = l1 ++ l2 /\ run c pol s l1 = Some si /\ available c si h = true.
+  evid k h (nth_error (threads s') t) ->
+  evid k h (nth_error (threads s) t) \/
+  exists l1 l2 si, ls = l1 ++ l2 /\ run c pol s l1 = Some si /\ fact c k si h.
 Proof.
-  induction ls as [|l ls IH]; intros s s' H Hl Hin; simpl in H.
-  - injection H as <-. left. exact Hin.
+  induction ls as [|l ls IH]; intros s s' H Hl Ev; simpl in H.
+  - injection H as <-. left. exact Ev.
   - destruct (step c pol s l) as [s1|] eqn:E; [|discriminate].
     simpl in Hl. apply orb_false_iff in Hl as [Hl1 Hl2].
-    destruct (IH _ _ H Hl2 Hin) as [Hi|(l1 & l2 & si & El & Hr & Ha)].
-    + destruct (step_sel_obs _ _ _ _ _ _ _ E Hl1 Hi) as [Hi'|Ha]; [left; exact Hi'|].
+    destruct (IH _ _ H Hl2 Ev) as [Hi|(l1 & l2 & si & El & Hr & Ha)].
+    + destruct (step_evid _ _ _ _ _ _ _ _ E Hl1 Hi) as [Hi'|Ha]; [left; exact Hi'|].
       right. exists [], (l :: ls), s. repeat split. exact Ha.
     + right. exists (l :: l1), l2, si. repeat split; [simpl; rewrite El; reflexivity | simpl; rewrite E; exact Hr | exact Ha].
 Qed.
 
-(* the host a Select returns was available in some state between the entry and the return of that Select *)
-Lemma select_result_available_during c pol s0 t mid h r s1 :
+(* each of the three facts that make the returned host available held in some state between the
+   entry and the return of that Select *)
+Lemma select_result_fact c pol k s0 t mid h r s1 :
   pol_sound pol -> existsb (is_selstart t) mid = false ->
   run c pol s0 (LSelStart t :: mid ++ [LSelEnd t (Some h) r]) = Some s1 ->
-  exists l1 l2 si, mid = l1 ++ l2 /\ run c pol s0 (LSelStart t :: l1) = Some si /\ available c si h = true.
+  exists l1 l2 si, mid = l1 ++ l2 /\ run c pol s0 (LSelStart t :: l1) = Some si /\ fact c k si h.
 Proof.
   intros Hs Hm H. cbn [run] in H. destruct (step c pol s0 (LSelStart t)) as [sa|] eqn:Ea; [|discriminate].
   destruct (run_app_inv _ _ _ _ _ _ H) as (sb & Hmid & Hend). simpl in Hend.
   destruct (step c pol sb (LSelEnd t (Some h) r)) as [sc|] eqn:Ee; [|discriminate].
-  assert (Hin : In (h, true) (sel_obs sb t)).
-  { unfold step in Ee. unfold sel_obs. destruct (nth_error (threads sb) t) as [[|obs| | | | |]|]; try discriminate.
-    destruct (pol obs (Some h)) eqn:P; [|discriminate]. exact (Hs _ _ P). }
-  assert (Hemp : sel_obs sa t = []).
-  { open_thread Ea s0 t Hn. injection Ea as <-. rewrite (sel_obs_set _ _ _ _ _ Hn), Nat.eqb_refl. reflexivity. }
-  destruct (run_sel_obs _ _ _ _ _ _ _ Hmid Hm Hin) as [Hi|(l1 & l2 & si & El & Hr & Ha)].
-  - rewrite Hemp in Hi. contradiction.
+  assert (Hin : evid k h (nth_error (threads sb) t)).
+  { unfold step in Ee. destruct (nth_error (threads sb) t) as [[|obs [?|]| | | | |]|]; try discriminate.
+    destruct (pol obs (Some h)) eqn:P; [|discriminate]. left. exact (Hs _ _ P). }
+  assert (Hemp : nth_error (threads sa) t = Some (Selecting [] None)).
+  { open_thread Ea s0 t Hn. injection Ea as <-. rewrite (pc_at_set _ _ _ _ _ Hn), Nat.eqb_refl. reflexivity. }
+  destruct (run_evid _ _ _ _ _ _ _ _ Hmid Hm Hin) as [Hi|(l1 & l2 & si & El & Hr & Ha)].
+  - rewrite Hemp in Hi. simpl in Hi. destruct Hi as [[]|[]].
   - exists l1, l2, si. repeat split; [exact El | cbn [run]; rewrite Ea; exact Hr | exact Ha].
+Qed.
+
+Lemma select_result_available_during c pol s0 t mid h r s1 :
+  pol_sound pol -> existsb (is_selstart t) mid = false ->
+  run c pol s0 (LSelStart t :: mid ++ [LSelEnd t (Some h) r]) = Some s1 ->
+  (exists l1 l2 si, mid = l1 ++ l2 /\ run c pol s0 (LSelStart t :: l1) = Some si /\ unhealthy si h = false) /\
+  (exists l1 l2 si, mid = l1 ++ l2 /\ run c pol s0 (LSelStart t :: l1) = Some si /\ fails si h < c_max_fails c) /\
+  (exists l1 l2 si, mid = l1 ++ l2 /\ run c pol s0 (LSelStart t :: l1) = Some si /\ full c si h = false).
+Proof.
+  intros Hs Hm H. repeat split.
+  - exact (select_result_fact c pol 1 _ _ _ _ _ _ Hs Hm H).
+  - exact (select_result_fact c pol 2 _ _ _ _ _ _ Hs Hm H).
+  - exact (select_result_fact c pol 3 _ _ _ _ _ _ Hs Hm H).
 Qed.
 
 Lemma step_unhealthy_stays c pol s l s' h :
@@ -743,8 +803,9 @@ Proof.
   intros H Hl U. destruct l; unfold step in H.
   - injection H as <-. exact U.
   - destruct (nth_error (threads s) t) as [[| | | | | |]|]; try discriminate. injection H as <-. exact U.
-  - destruct (nth_error (threads s) t) as [[| | | | | |]|]; try discriminate. injection H as <-. exact U.
-  - destruct (nth_error (threads s) t) as [[|obs| | | | |]|]; try discriminate.
+  - destruct (nth_error (threads s) t) as [[|obs cur| | | | |]|]; try discriminate.
+    match type of H with match ?rn with _ => _ end = _ => destruct rn; [|discriminate] end. injection H as <-. exact U.
+  - destruct (nth_error (threads s) t) as [[|obs [?|]| | | | |]|]; try discriminate.
     destruct (pol obs ho); [|discriminate]. injection H as <-. exact U.
   - destruct (nth_error (threads s) t) as [[| |[x|]| | | |]|]; try discriminate. injection H as <-. exact U.
   - destruct (nth_error (threads s) t) as [[| | |x n| | |]|]; try discriminate.
@@ -778,11 +839,11 @@ Lemma unhealthy_before_select_never_selected c pol s0 t mid h r :
   run c pol s0 (LSelStart t :: mid ++ [LSelEnd t (Some h) r]) = None.
 Proof.
   intros Hs U Hm Hh. destruct (run c pol s0 (LSelStart t :: mid ++ [LSelEnd t (Some h) r])) as [s1|] eqn:H; [|reflexivity].
-  exfalso. destruct (select_result_available_during _ _ _ _ _ _ _ _ Hs Hm H) as (l1 & l2 & si & El & Hr & Ha).
+  exfalso. destruct (select_result_fact c pol 1 _ _ _ _ _ _ Hs Hm H) as (l1 & l2 & si & El & Hr & Ha).
   assert (Hh1 : existsb (is_heal h) (LSelStart t :: l1) = false).
   { simpl. rewrite El, existsb_app in Hh. apply orb_false_iff in Hh as [Hh _]. exact Hh. }
   pose proof (run_unhealthy_stays _ _ _ _ _ _ Hr Hh1 U) as Ui.
-  unfold available, down in Ha. rewrite Ui in Ha. discriminate.
+  simpl in Ha. rewrite Ui in Ha. discriminate.
 Qed.
 
 Lemma pol_std_sound n : pol_sound (pol_std n).
@@ -826,7 +887,8 @@ Qed.
 Definition cfg_cap1 : config :=
   {| c_hosts := 1; c_max_conns := 1; c_max_fails := 1; c_fail_timeout := 10 |}.
 Definition healthy : nat -> bool := fun _ => false.
-Definition sel0 (t : nat) : list label := [LSelStart t; LSelRead t 0%nat; LSelEnd t (Some 0%nat) 0%N].
+Definition sel0 (t : nat) : list label :=
+  [LSelStart t; LSelRead t 0%nat; LSelRead t 0%nat; LSelRead t 0%nat; LSelEnd t (Some 0%nat) 0%N].
 Definition sched_window : list label :=
   [LSpawn; LSpawn] ++ sel0 0 ++ sel0 1 ++ [LLoad 0; LCas 0; LLoad 1].
 (* both requests load Conns = 0 before either swaps: the second swap is lost and the request loads again *)
@@ -876,10 +938,26 @@ Proof.
   rewrite forallb_app, N1, N2. reflexivity.
 Qed.
 
-Lemma quick_reads c pol t hs : forall s s', run c pol s (map (LSelRead t) hs) = Some s' -> quick_run c pol s s'.
+Definition is_read (t : nat) (l : label) : bool := match l with LSelRead t' _ => Nat.eqb t t' | _ => false end.
+
+Lemma avail_labels_reads c s0 t hs : forallb (is_read t) (flat_map (avail_labels c s0 t) hs) = true.
 Proof.
-  intros s s' H. exists (map (LSelRead t) hs). split; [exact H|].
-  clear H. induction hs as [|h hs IH]; simpl; auto.
+  induction hs as [|h hs IH]; simpl; [reflexivity|]. rewrite forallb_app, IH, andb_true_r.
+  unfold avail_labels. generalize (if unhealthy s0 h then 1%nat else if c_max_fails c <=? fails s0 h then 2%nat else 3%nat).
+  intros n. induction n as [|n IHn]; simpl; [reflexivity|]. rewrite Nat.eqb_refl, IHn. reflexivity.
+Qed.
+
+Lemma reads_notick t ls : forallb (is_read t) ls = true -> forallb notick ls = true.
+Proof.
+  induction ls as [|l ls IH]; simpl; [reflexivity|]. intros H. apply andb_true_iff in H as [H1 H2].
+  rewrite (IH H2). destruct l; try discriminate H1. reflexivity.
+Qed.
+
+Lemma quick_reads c pol s0 t hs : forall s s',
+  run c pol s (flat_map (avail_labels c s0 t) hs) = Some s' -> quick_run c pol s s'.
+Proof.
+  intros s s' H. exists (flat_map (avail_labels c s0 t) hs). split; [exact H|].
+  exact (reads_notick _ _ (avail_labels_reads c s0 t hs)).
 Qed.
 
 Lemma sel_scan_quick c pol s t s' : sel_scan c pol s t = Some s' -> quick_run c pol s s'.
@@ -887,15 +965,16 @@ Proof.
   intros H. unfold sel_scan in H. destruct (step c pol s (LSelStart t)) as [s1|] eqn:E1; [|discriminate].
   apply (quick_trans _ _ _ s1); [exact (quick_step _ _ _ _ _ E1 eq_refl)|].
   destruct (c_hosts c) as [|[|n]].
-  - destruct (run c pol s1 (map (LSelRead t) (scan_reads c s (seq 0 0)))) as [s2|] eqn:E2; [|discriminate].
-    apply (quick_trans _ _ _ s2); [exact (quick_reads _ _ _ _ _ _ E2)|].
+  - destruct (run c pol s1 (flat_map (avail_labels c s t) (scan_reads c s (seq 0 0)))) as [s2|] eqn:E2; [|discriminate].
+    apply (quick_trans _ _ _ s2); [exact (quick_reads _ _ _ _ _ _ _ E2)|].
     destruct (existsb (available c s) (seq 0 0)); [injection H as <-; apply quick_refl|].
     exact (quick_step _ _ _ _ _ H eq_refl).
-  - destruct (step c pol s1 (LSelRead t 0%nat)) as [s2|] eqn:E2; [|discriminate].
-    apply (quick_trans _ _ _ s2); [exact (quick_step _ _ _ _ _ E2 eq_refl)|].
+  - destruct (run c pol s1 (avail_labels c s t 0%nat)) as [s2|] eqn:E2; [|discriminate].
+    apply (quick_trans _ _ _ s2).
+    { apply (quick_reads c pol s t [0%nat]). simpl. rewrite app_nil_r. exact E2. }
     exact (quick_step _ _ _ _ _ H eq_refl).
-  - destruct (run c pol s1 (map (LSelRead t) (scan_reads c s (seq 0 (S (S n)))))) as [s2|] eqn:E2; [|discriminate].
-    apply (quick_trans _ _ _ s2); [exact (quick_reads _ _ _ _ _ _ E2)|].
+  - destruct (run c pol s1 (flat_map (avail_labels c s t) (scan_reads c s (seq 0 (S (S n)))))) as [s2|] eqn:E2; [|discriminate].
+    apply (quick_trans _ _ _ s2); [exact (quick_reads _ _ _ _ _ _ _ E2)|].
     destruct (existsb (available c s) (seq 0 (S (S n)))); [injection H as <-; apply quick_refl|].
     exact (quick_step _ _ _ _ _ H eq_refl).
 Qed.
@@ -905,8 +984,8 @@ Proof.
   intros H. unfold sel_policy in H.
   destruct (nth_error (threads s) t) as [[| | | | | |]|]; try discriminate.
   destruct (ps s) as [ho r].
-  destruct (run c pol s (map (LSelRead t) (seq 0 (c_hosts c)))) as [s1|] eqn:E1; [|discriminate].
-  apply (quick_trans _ _ _ s1); [exact (quick_reads _ _ _ _ _ _ E1)|].
+  destruct (run c pol s (flat_map (avail_labels c s t) (seq 0 (c_hosts c)))) as [s1|] eqn:E1; [|discriminate].
+  apply (quick_trans _ _ _ s1); [exact (quick_reads _ _ _ _ _ _ _ E1)|].
   exact (quick_step _ _ _ _ _ H eq_refl).
 Qed.
 
@@ -981,8 +1060,9 @@ Proof.
   intros Hl Pr H. destruct l; try discriminate Hl; unfold step in H.
   - injection H as <-. exact Pr.
   - destruct (nth_error (threads s) t) as [[| | | | | |]|]; try discriminate. injection H as <-. exact Pr.
-  - destruct (nth_error (threads s) t) as [[| | | | | |]|]; try discriminate. injection H as <-. exact Pr.
-  - destruct (nth_error (threads s) t) as [[|obs| | | | |]|]; try discriminate.
+  - destruct (nth_error (threads s) t) as [[|obs cur| | | | |]|]; try discriminate.
+    match type of H with match ?rn with _ => _ end = _ => destruct rn; [|discriminate] end. injection H as <-. exact Pr.
+  - destruct (nth_error (threads s) t) as [[|obs [?|]| | | | |]|]; try discriminate.
     destruct (pol obs ho); [|discriminate]. injection H as <-. exact Pr.
   - destruct (nth_error (threads s) t) as [[| |[x|]| | | |]|]; try discriminate. injection H as <-. exact Pr.
   - destruct (nth_error (threads s) t) as [[| | |x n| | |]|]; try discriminate.
@@ -1059,18 +1139,21 @@ Proof.
 Qed.
 
 (* a whole Select that runs while nothing else moves answers a host that is available in that state *)
-Lemma reads_keep c pol t : forall hs s s',
-  run c pol s (map (LSelRead t) hs) = Some s' ->
+Lemma reads_keep c pol t : forall ls s s',
+  forallb (is_read t) ls = true -> run c pol s ls = Some s' ->
   conns s' = conns s /\ fails s' = fails s /\ unhealthy s' = unhealthy s /\ robin s' = robin s /\
-  ((exists obs, nth_error (threads s) t = Some (Selecting obs)) ->
-   (exists obs, nth_error (threads s') t = Some (Selecting obs))).
+  ((exists obs cur, nth_error (threads s) t = Some (Selecting obs cur)) ->
+   (exists obs cur, nth_error (threads s') t = Some (Selecting obs cur))).
 Proof.
-  induction hs as [|h hs IH]; intros s s' H; simpl in H.
+  induction ls as [|l ls IH]; intros s s' Hr H; simpl in H.
   - injection H as <-. repeat split; auto.
-  - destruct (step c pol s (LSelRead t h)) as [s1|] eqn:E; [|discriminate].
-    destruct (IH _ _ H) as (A & B & C & D & F).
-    open_thread E s t Hn. injection E as <-. sset. repeat split; auto.
-    intros _. apply F. eexists. exact (nth_error_set_nth _ _ _ _ Hn).
+  - destruct (step c pol s l) as [s1|] eqn:E; [|discriminate].
+    simpl in Hr. apply andb_true_iff in Hr as [Hr1 Hr2].
+    destruct (IH _ _ Hr2 H) as (A & B & C & D & F).
+    destruct l; try discriminate Hr1. simpl in Hr1. apply Nat.eqb_eq in Hr1. subst t0.
+    open_thread E s t Hn. destruct (read_next c s h obs cur) as [p|] eqn:Er; [|discriminate]. injection E as <-.
+    destruct (read_next_selecting _ _ _ _ _ _ Er) as (obs' & cur' & ->). sset. repeat split; auto.
+    intros _. apply F. eexists. eexists. exact (nth_error_set_nth _ _ _ _ Hn).
 Qed.
 
 Lemma available_ext c s s' h :
@@ -1083,35 +1166,35 @@ Proof.
   intros Hs H. cbn [hexec] in H. destruct (sel_scan c pol s t) as [s1|] eqn:E1; [|discriminate].
   unfold sel_scan in E1. destruct (step c pol s (LSelStart t)) as [sa|] eqn:Ea; [|discriminate].
   assert (Ka : conns sa = conns s /\ fails sa = fails s /\ unhealthy sa = unhealthy s /\
-               exists obs, nth_error (threads sa) t = Some (Selecting obs)).
-  { open_thread Ea s t Hn. injection Ea as <-. sset. repeat split; auto. eexists. exact (nth_error_set_nth _ _ _ _ Hn). }
+               exists obs cur, nth_error (threads sa) t = Some (Selecting obs cur)).
+  { open_thread Ea s t Hn. injection Ea as <-. sset. repeat split; auto. eexists. eexists. exact (nth_error_set_nth _ _ _ _ Hn). }
   destruct Ka as (Ka1 & Ka2 & Ka3 & Ka4).
   (* the policy phase, whenever it is reached from a state with the same counters *)
   assert (P : forall s1, conns s1 = conns s -> fails s1 = fails s -> unhealthy s1 = unhealthy s ->
               forall s2, sel_policy c pol ps s1 t = Some s2 ->
               pc_ev (nth_error (threads s2) t) = EvSel (Some h) -> available c s h = true).
   { intros s1' A B C s2 E2 Ev. unfold sel_policy in E2.
-    destruct (nth_error (threads s1') t) as [[|obs1| | | | |]|] eqn:Hn1; try discriminate.
+    destruct (nth_error (threads s1') t) as [[|obs1 cur1| | | | |]|] eqn:Hn1; try discriminate.
     destruct (ps s1') as [ho r] eqn:Eps.
-    destruct (run c pol s1' (map (LSelRead t) (seq 0 (c_hosts c)))) as [sb|] eqn:Eb; [|discriminate].
-    open_thread E2 sb t Hnb. destruct (pol obs ho); [|discriminate]. injection E2 as <-. sset.
+    destruct (run c pol s1' (flat_map (avail_labels c s1' t) (seq 0 (c_hosts c)))) as [sb|] eqn:Eb; [|discriminate].
+    open_thread E2 sb t Hnb. destruct cur; [discriminate|]. destruct (pol obs ho); [|discriminate]. injection E2 as <-. sset.
     rewrite (nth_error_set_nth _ _ _ _ Hnb) in Ev. simpl in Ev. injection Ev as ->.
     rewrite <- (available_ext c s s1' h A B C). exact (Hs _ _ _ Eps). }
   (* the end of a Select by the scan itself *)
   assert (Q : forall sb ho r s2, step c pol sb (LSelEnd t ho r) = Some s2 ->
               nth_error (threads s2) t = Some (Selected ho)).
-  { intros sb ho r s2 E. open_thread E sb t Hnb. destruct (pol obs ho); [|discriminate]. injection E as <-. sset.
+  { intros sb ho r s2 E. open_thread E sb t Hnb. destruct cur; [discriminate|]. destruct (pol obs ho); [|discriminate]. injection E as <-. sset.
     exact (nth_error_set_nth _ _ _ _ Hnb). }
   destruct (c_hosts c) as [|[|n]].
-  - destruct (run c pol sa (map (LSelRead t) (scan_reads c s (seq 0 0)))) as [sb|] eqn:Eb; [|discriminate].
+  - destruct (run c pol sa (flat_map (avail_labels c s t) (scan_reads c s (seq 0 0)))) as [sb|] eqn:Eb; [|discriminate].
     simpl in E1. rewrite (Q _ _ _ _ E1) in H. simpl in H. discriminate.
-  - destruct (step c pol sa (LSelRead t 0%nat)) as [sb|] eqn:Eb; [|discriminate].
+  - destruct (run c pol sa (avail_labels c s t 0%nat)) as [sb|] eqn:Eb; [|discriminate].
     rewrite (Q _ _ _ _ E1) in H. simpl in H. injection H as _ H.
     destruct (available c s 0%nat) eqn:Av; [injection H as <-; exact Av | discriminate].
-  - destruct (run c pol sa (map (LSelRead t) (scan_reads c s (seq 0 (S (S n)))))) as [sb|] eqn:Eb; [|discriminate].
-    destruct (reads_keep _ _ _ _ _ _ Eb) as (A & B & C & _ & F).
+  - destruct (run c pol sa (flat_map (avail_labels c s t) (scan_reads c s (seq 0 (S (S n)))))) as [sb|] eqn:Eb; [|discriminate].
+    destruct (reads_keep _ _ _ _ _ _ (avail_labels_reads c s t _) Eb) as (A & B & C & _ & F).
     destruct (existsb (available c s) (seq 0 (S (S n)))).
-    + injection E1 as <-. destruct (F Ka4) as (obs & Hn). rewrite Hn in H.
+    + injection E1 as <-. destruct (F Ka4) as (obs & cur & Hn). rewrite Hn in H.
       destruct (sel_policy c pol ps sb t) as [s2|] eqn:E2; [|discriminate]. injection H as <- Ev.
       exact (P sb ltac:(congruence) ltac:(congruence) ltac:(congruence) s2 E2 Ev).
     + rewrite (Q _ _ _ _ E1) in H. simpl in H. discriminate.
@@ -1158,7 +1241,8 @@ Proof.
   destruct (asleep f); simpl; rewrite IH; [rewrite andb_true_r | rewrite andb_false_r]; reflexivity.
 Qed.
 
-(* the availability read is a snapshot: marked unhealthy after the read, the host is still answered and forwarded to *)
+(* the availability read is a snapshot: marked unhealthy right after the load of Unhealthy — in the middle of
+   host.Available() — the host is still answered and forwarded to *)
 Lemma selected_host_healthy_refuted :
   exists c s h, reachable c (pol_std (c_hosts c)) s /\
                 nth_error (threads s) 0 = Some (Forwarding h) /\ unhealthy s h = true /\
@@ -1168,9 +1252,30 @@ Proof.
   exists cfg_cap1, (set_conns (set_unhealthy (set_threads (init 0 healthy) [Forwarding 0]) (setb healthy 0 true))
                               (bump (fun _ => 0) 0 1)), 0%nat.
   split; [|split; [reflexivity | split; [reflexivity|]]].
-  - exists 0%N, healthy, [LSpawn; LSelStart 0; LSelRead 0 0; LHealth 0 true; LSelEnd 0 (Some 0%nat) 0%N; LLoad 0; LCas 0].
+  - exists 0%N, healthy, [LSpawn; LSelStart 0; LSelRead 0 0; LHealth 0 true; LSelRead 0 0; LSelRead 0 0; LSelEnd 0 (Some 0%nat) 0%N; LLoad 0; LCas 0].
     reflexivity.
   - exists (set_robin (set_unhealthy (set_threads (init 0 healthy) [Selected (Some 0%nat)]) (setb healthy 0 true)) 0).
     split; [|split; reflexivity].
-    exists 0%N, healthy, [LSpawn; LSelStart 0; LSelRead 0 0; LHealth 0 true; LSelEnd 0 (Some 0%nat) 0%N]. reflexivity.
+    exists 0%N, healthy, [LSpawn; LSelStart 0; LSelRead 0 0; LHealth 0 true; LSelRead 0 0; LSelRead 0 0; LSelEnd 0 (Some 0%nat) 0%N]. reflexivity.
+Qed.
+
+(* timers that may be late, but by less than delta: Fails lies between the failures younger than
+   fail_timeout and the failures younger than fail_timeout + delta (delta = 0 is [prompt]) *)
+Definition late_by (c : config) (delta : Z) (s : state) : Prop :=
+  forall f, In f (flog s) -> f_fired f = None -> now s < f_at f + c_fail_timeout c + delta.
+
+Lemma fails_bounds_under_late_timers c pol s h delta :
+  reachable c pol s -> late_by c delta s ->
+  unexpired c s h <= fails s h <=
+  cnt (fun f => on_host h f && (now s <? f_at f + c_fail_timeout c + delta)) (flog s).
+Proof.
+  intros R L. split; [exact (fails_ge_unexpired _ _ _ h R)|].
+  rewrite (fails_counts_pending _ _ _ h R). unfold pending. apply cnt_mono.
+  intros f Hf H. apply andb_true_iff in H as [H1 H2]. rewrite H1. simpl. apply Z.ltb_lt.
+  apply (L f Hf). unfold asleep in H2. destruct (f_fired f); [discriminate | reflexivity].
+Qed.
+
+Lemma prompt_is_late_by_zero c s : prompt c s <-> late_by c 0 s.
+Proof.
+  unfold prompt, late_by. split; intros H f Hf Hs; specialize (H f Hf Hs); lia.
 Qed.
